@@ -285,7 +285,9 @@ def d_separations(
         unit="pair",
         total=len(vertices) * (len(vertices) - 1) // 2,
     ):
-        for conditions in powerset(vertices - {a, b}, stop=max_conditions):
+        # the stop of powerset is exclusive, but max_conditions is the longest size to investigate
+        stop = None if max_conditions is None else max_conditions + 1
+        for conditions in powerset(vertices - {a, b}, stop=stop):
             judgement = are_d_separated(graph, a, b, conditions=conditions)
             if judgement.separated:
                 yield judgement
